@@ -1,4 +1,332 @@
-import SafeC.Models.Copy
-/-! Property theorems for C19 (see DESIGN.md §4). -/
+import SafeC.Models.Timing
+/-!
+# C19: functional correctness and data independence of `timingsafe_bcmp` / `timingsafe_memcmp`
+
+* `bcmp_C19`, `memcmp_C19`: the value returned (total interpreter `runT`);
+* `bcmp_ct`, `memcmp_ct`: the trace (addresses accessed, branch decisions) is the same for any
+  two memory contents;
+* `bcmp_trace`, `memcmp_trace`: the trace in closed form.
+-/
 namespace SafeC.Props.C19
+open SafeC Gen
+
+/-! ## specification -/
+
+/-- sign of the first differing byte pair compared as unsigned chars; 0 if none among the first n -/
+def memcmpSpec (st : St) : Nat → Nat → Nat → Int
+  | 0, _, _ => 0
+  | n+1, p1, p2 =>
+    if st.data p1 < st.data p2 then -1
+    else if st.data p1 > st.data p2 then 1
+    else memcmpSpec st n (p1+1) (p2+1)
+
+/-- the trace is exactly: the entry-check decisions, then per cell `br true, rd (p1+i), rd (p2+i)`, then `br false`
+(object sizes unknown, n within the limit) -/
+def loopTrace : Nat → Nat → Nat → List TItem
+  | 0, _, _ => [.br false]
+  | n+1, p1, p2 => .br true :: .rd p1 :: .rd p2 :: loopTrace n (p1+1) (p2+1)
+
+/-! ## `runT` / `trace` laws -/
+
+theorem runT_bind (p : Prog α) (f : α → Prog β) (s : St) :
+    runT (p >>= f) s = runT (f (runT p s).1) (runT p s).2 := by
+  show runT (p.bind f) s = _
+  induction p generalizing s with
+  | ret x => rfl
+  | load a k ih => simp only [Prog.bind, runT]; exact ih _ _
+  | store a v k ih => simp only [Prog.bind, runT]; exact ih _
+  | emit e k ih => simp only [Prog.bind, runT]; exact ih _
+
+/-- the value returned, the final memory and the trace depend on the memory contents only
+(not on the recorded events / strays) -/
+theorem data_congr (p : Prog α) (s s' : St) (h : s.data = s'.data) :
+    (runT p s).1 = (runT p s').1 ∧ (runT p s).2.data = (runT p s').2.data ∧
+      trace p s = trace p s' := by
+  induction p generalizing s s' with
+  | ret x => exact ⟨rfl, h, rfl⟩
+  | load a k ih =>
+    simp only [runT, trace, h]
+    obtain ⟨h1, h2, h3⟩ := ih (s'.data a) s s' h
+    exact ⟨h1, h2, by rw [h3]⟩
+  | store a v k ih =>
+    have hu : (s.upd a v).data = (s'.upd a v).data := by simp only [St.upd, h]
+    simp only [runT, trace]
+    obtain ⟨h1, h2, h3⟩ := ih (s.upd a v) (s'.upd a v) hu
+    exact ⟨h1, h2, by rw [h3]⟩
+  | emit e k ih =>
+    cases e with
+    | branch b =>
+      simp only [runT, trace]
+      obtain ⟨h1, h2, h3⟩ := ih { s with events := s.events ++ [.branch b] }
+        { s' with events := s'.events ++ [.branch b] } h
+      exact ⟨h1, h2, by rw [ih s s' h |>.2.2]⟩
+    | handler kd c =>
+      simp only [runT, trace]
+      obtain ⟨h1, h2, h3⟩ := ih { s with events := s.events ++ [.handler kd c] }
+        { s' with events := s'.events ++ [.handler kd c] } h
+      exact ⟨h1, h2, by rw [ih s s' h |>.2.2]⟩
+
+theorem trace_bind (p : Prog α) (f : α → Prog β) (s : St) :
+    trace (p >>= f) s = trace p s ++ trace (f (runT p s).1) (runT p s).2 := by
+  show trace (p.bind f) s = _
+  induction p generalizing s with
+  | ret x => rfl
+  | load a k ih => simp only [Prog.bind, runT, trace, List.cons_append]; rw [ih]
+  | store a v k ih => simp only [Prog.bind, runT, trace, List.cons_append]; rw [ih]
+  | emit e k ih =>
+    have key : ∀ s' : St, s.data = s'.data →
+        trace (f (runT k s).1) (runT k s).2 = trace (f (runT k s').1) (runT k s').2 := by
+      intro s' h
+      obtain ⟨h1, h2, _⟩ := data_congr k s s' h
+      rw [h1]
+      exact (data_congr (f _) _ _ h2).2.2
+    cases e with
+    | branch b =>
+      simp only [Prog.bind, runT, trace, List.cons_append]
+      rw [ih, key { s with events := s.events ++ [.branch b] } rfl]
+    | handler kd c =>
+      simp only [Prog.bind, runT, trace, List.cons_append]
+      rw [ih, key { s with events := s.events ++ [.handler kd c] } rfl]
+
+/-- the only thing `emit` changes -/
+def St.ev (s : St) (e : Event) : St := { s with events := s.events ++ [e] }
+
+@[simp] theorem St.ev_data (s : St) (e : Event) : (St.ev s e).data = s.data := rfl
+
+@[simp] theorem runT_pure (x : α) (s : St) : runT (pure x : Prog α) s = (x, s) := rfl
+@[simp] theorem trace_pure (x : α) (s : St) : trace (pure x : Prog α) s = [] := rfl
+@[simp] theorem runT_load (a : Nat) (s : St) : runT (load a) s = (s.data a, s) := rfl
+@[simp] theorem trace_load (a : Nat) (s : St) : trace (load a) s = [.rd a] := rfl
+@[simp] theorem runT_br (b : Bool) (s : St) : runT (br b) s = ((), St.ev s (.branch b)) := rfl
+@[simp] theorem trace_br (b : Bool) (s : St) : trace (br b) s = [.br b] := rfl
+@[simp] theorem runT_handlerM (c : Nat) (s : St) :
+    runT (handlerM c) s = ((), St.ev s (.handler .mem c)) := rfl
+@[simp] theorem trace_handlerM (c : Nat) (s : St) : trace (handlerM c) s = [.hd .mem c] := rfl
+
+/-! ## the entry checks -/
+
+theorem checks_run (st : St) (n : Nat) (hn : n ≤ RSIZE_MAX_MEM) :
+    runT (tsChecks n none none) st = (none, St.ev st (.branch false)) := by
+  have h : decide (n > RSIZE_MAX_MEM) = false := by simp; omega
+  simp only [tsChecks, h]
+  simp [runT_bind]
+
+theorem checks_trace (st : St) (n : Nat) (hn : n ≤ RSIZE_MAX_MEM) :
+    trace (tsChecks n none none) st = [.br false] := by
+  have h : decide (n > RSIZE_MAX_MEM) = false := by simp; omega
+  simp only [tsChecks, h]
+  simp [trace_bind]
+
+/-- the outcome and the trace of the checks depend on `n` and the object sizes only -/
+theorem checks_indep (st₁ st₂ : St) (n : Nat) (db sb : Bos) :
+    (runT (tsChecks n db sb) st₁).1 = (runT (tsChecks n db sb) st₂).1 ∧
+    trace (tsChecks n db sb) st₁ = trace (tsChecks n db sb) st₂ := by
+  unfold tsChecks
+  cases db <;> cases sb <;> simp only [] <;> split <;> (try split) <;>
+    simp [runT_bind, trace_bind, *]
+
+/-! ## `timingsafe_bcmp` -/
+
+theorem bcmpLoop_succ (n p1 p2 ret : Nat) :
+    bcmpLoop (n+1) p1 p2 ret =
+      (br true >>= fun _ => load p1 >>= fun a => load p2 >>= fun b =>
+        bcmpLoop n (p1+1) (p2+1) (ret ||| (a ^^^ b))) := rfl
+
+theorem bcmpLoop_zero (p1 p2 ret : Nat) :
+    bcmpLoop 0 p1 p2 ret = (br false >>= fun _ => pure ret) := rfl
+
+theorem xor_eq_zero {a b : Nat} : a ^^^ b = 0 ↔ a = b := by
+  constructor
+  · intro h
+    have h2 : a ^^^ (a ^^^ b) = a ^^^ 0 := by rw [h]
+    rw [← Nat.xor_assoc, Nat.xor_self, Nat.zero_xor, Nat.xor_zero] at h2
+    exact h2.symm
+  · rintro rfl; exact Nat.xor_self a
+
+theorem bcmpLoop_val (st : St) (n p1 p2 ret : Nat) :
+    (runT (bcmpLoop n p1 p2 ret) st).1 = 0 ↔
+      ret = 0 ∧ ∀ i, i < n → st.data (p1+i) = st.data (p2+i) := by
+  induction n generalizing st p1 p2 ret with
+  | zero => simp [bcmpLoop_zero, runT_bind]
+  | succ n ih =>
+    simp only [bcmpLoop_succ, runT_bind, runT_br, runT_load]
+    rw [ih]
+    simp only [St.ev_data, Nat.or_eq_zero_iff, xor_eq_zero]
+    constructor
+    · rintro ⟨⟨h0, h1⟩, h2⟩
+      refine ⟨h0, ?_⟩
+      intro i hi
+      cases i with
+      | zero => simpa using h1
+      | succ j =>
+        have := h2 j (by omega)
+        simpa [Nat.add_assoc, Nat.add_comm 1 j] using this
+    · rintro ⟨h0, h2⟩
+      refine ⟨⟨h0, by simpa using h2 0 (by omega)⟩, ?_⟩
+      intro i hi
+      have := h2 (i+1) (by omega)
+      simpa [Nat.add_assoc, Nat.add_comm 1 i] using this
+
+theorem bcmpLoop_trace (st : St) (n p1 p2 ret : Nat) :
+    trace (bcmpLoop n p1 p2 ret) st = loopTrace n p1 p2 := by
+  induction n generalizing st p1 p2 ret with
+  | zero => simp [bcmpLoop_zero, trace_bind, loopTrace]
+  | succ n ih =>
+    simp only [bcmpLoop_succ, trace_bind, runT_br, runT_load, trace_br, trace_load]
+    rw [ih]
+    simp [loopTrace]
+
+theorem bcmp_unfold (p1 p2 n : Nat) (db sb : Bos) :
+    timingsafe_bcmp p1 p2 n db sb =
+      (tsChecks n db sb >>= fun r => match r with
+        | some r => pure r
+        | none => bcmpLoop n p1 p2 0 >>= fun ret => pure (if ret ≠ 0 then 1 else 0)) := rfl
+
+/-- timingsafe_bcmp returns 0 exactly when the two n-cell regions are equal, and 1 otherwise -/
+theorem bcmp_C19 (st : St) (p1 p2 n : Nat) (hn : n ≤ RSIZE_MAX_MEM) :
+    ((runT (timingsafe_bcmp p1 p2 n none none) st).1 = 0 ↔ ∀ i, i < n → st.data (p1+i) = st.data (p2+i)) ∧
+    ((runT (timingsafe_bcmp p1 p2 n none none) st).1 = 0 ∨ (runT (timingsafe_bcmp p1 p2 n none none) st).1 = 1) := by
+  have hv := bcmpLoop_val (St.ev st (.branch false)) n p1 p2 0
+  simp only [St.ev_data, true_and] at hv
+  rw [bcmp_unfold, runT_bind, checks_run st n hn]
+  simp only [runT_bind, runT_pure]
+  by_cases h : (runT (bcmpLoop n p1 p2 0) (St.ev st (.branch false))).1 = 0
+  · simp only [h, ne_eq, not_true_eq_false, if_false, true_iff, true_or, and_true]
+    exact hv.mp h
+  · simp only [h, ne_eq, not_false_eq_true, if_true]
+    exact ⟨⟨fun h1 => absurd h1 (by decide), fun h2 => absurd (hv.mpr h2) h⟩, Or.inr trivial⟩
+
+/-! ## `timingsafe_memcmp` -/
+
+theorem memcmpLoop_succ (n p1 p2 : Nat) (res done : Int32) :
+    memcmpLoop (n+1) p1 p2 res done =
+      (br true >>= fun _ => load p1 >>= fun a => load p2 >>= fun b =>
+        memcmpLoop n (p1+1) (p2+1) (memcmpStep a b res done).1 (memcmpStep a b res done).2) := rfl
+
+theorem memcmpLoop_zero (p1 p2 : Nat) (res done : Int32) :
+    memcmpLoop 0 p1 p2 res done = (br false >>= fun _ => pure res) := rfl
+
+theorem k_fin : ∀ k : Fin 256,
+    (Int32.ofNat k.val) >>> 8 = 0 ∧ (k.val ≠ 0 → (-Int32.ofNat k.val) >>> 8 = -1) := by
+  decide +kernel
+
+/-- `(a - b) >> CHAR_BIT` on `int` for `unsigned char` operands is the mask of `a < b` -/
+theorem lt_mask (a b : Nat) (ha : a < 256) (hb : b < 256) :
+    (Int32.ofNat a - Int32.ofNat b) >>> 8 = if a < b then -1 else 0 := by
+  by_cases h : a < b
+  · rw [if_pos h, ← Int32.neg_sub, ← Int32.ofNat_sub b a (by omega)]
+    exact (k_fin ⟨b - a, by omega⟩).2 (by show b - a ≠ 0; omega)
+  · rw [if_neg h, ← Int32.ofNat_sub a b (by omega)]
+    exact (k_fin ⟨a - b, by omega⟩).1
+
+theorem step_bytes (a b : Nat) (ha : a < 256) (hb : b < 256) :
+    memcmpStep a b 0 0 =
+      if a < b then (-1, -1) else if a > b then (1, -1) else (0, 0) := by
+  unfold memcmpStep
+  simp only [lt_mask a b ha hb, lt_mask b a hb ha]
+  by_cases h1 : a < b
+  · have h2 : ¬ b < a := by omega
+    simp only [h1, h2, if_true, if_false]; decide
+  · by_cases h2 : b < a
+    · simp only [h1, h2, if_true, if_false]; decide
+    · simp only [h1, h2, if_false]; decide
+
+/-- once `done` is all ones, `res` is frozen -/
+theorem step_done (a b : Nat) (res : Int32) : memcmpStep a b res (-1) = (res, -1) := by
+  unfold memcmpStep
+  simp only [Int32.not_neg_one, Int32.and_zero, Int32.or_zero, Int32.neg_one_or]
+
+theorem memcmpLoop_done (st : St) (n p1 p2 : Nat) (res : Int32) :
+    (runT (memcmpLoop n p1 p2 res (-1)) st).1 = res := by
+  induction n generalizing st p1 p2 with
+  | zero => simp [memcmpLoop_zero, runT_bind]
+  | succ n ih =>
+    simp only [memcmpLoop_succ, runT_bind, runT_br, runT_load, step_done]
+    exact ih _ _ _
+
+theorem memcmpSpec_congr (st st' : St) (h : st'.data = st.data) (n p1 p2 : Nat) :
+    memcmpSpec st' n p1 p2 = memcmpSpec st n p1 p2 := by
+  induction n generalizing p1 p2 with
+  | zero => rfl
+  | succ n ih => simp only [memcmpSpec, h, ih]
+
+theorem memcmpLoop_val (st : St) (n p1 p2 : Nat)
+    (hb : ∀ i, i < n → st.data (p1+i) < 256 ∧ st.data (p2+i) < 256) :
+    (runT (memcmpLoop n p1 p2 0 0) st).1.toInt = memcmpSpec st n p1 p2 := by
+  induction n generalizing st p1 p2 with
+  | zero => simp [memcmpLoop_zero, runT_bind, memcmpSpec]
+  | succ n ih =>
+    have h0 := hb 0 (by omega)
+    simp only [Nat.add_zero] at h0
+    simp only [memcmpLoop_succ, runT_bind, runT_br, runT_load, St.ev_data, memcmpSpec]
+    rw [step_bytes _ _ h0.1 h0.2]
+    by_cases h1 : st.data p1 < st.data p2
+    · simp only [h1, if_true, memcmpLoop_done]; decide
+    · by_cases h2 : st.data p1 > st.data p2
+      · simp only [h1, h2, if_true, if_false, memcmpLoop_done]; decide
+      · simp only [h1, h2, if_false]
+        rw [ih]
+        · exact memcmpSpec_congr st (St.ev st _) rfl _ _ _
+        · intro i hi
+          have := hb (i+1) (by omega)
+          simpa [Nat.add_assoc, Nat.add_comm 1 i] using this
+
+theorem memcmpLoop_trace (st : St) (n p1 p2 : Nat) (res done : Int32) :
+    trace (memcmpLoop n p1 p2 res done) st = loopTrace n p1 p2 := by
+  induction n generalizing st p1 p2 res done with
+  | zero => simp [memcmpLoop_zero, trace_bind, loopTrace]
+  | succ n ih =>
+    simp only [memcmpLoop_succ, trace_bind, runT_br, runT_load, trace_br, trace_load]
+    rw [ih]
+    simp [loopTrace]
+
+theorem memcmp_unfold (p1 p2 n : Nat) (db sb : Bos) :
+    timingsafe_memcmp p1 p2 n db sb =
+      (tsChecks n db sb >>= fun r => match r with
+        | some r => pure r
+        | none => memcmpLoop n p1 p2 0 0 >>= fun r => pure r.toInt) := rfl
+
+/-- timingsafe_memcmp returns the sign of the first differing pair (cells are bytes) -/
+theorem memcmp_C19 (st : St) (p1 p2 n : Nat) (hn : n ≤ RSIZE_MAX_MEM)
+    (hb : ∀ i, i < n → st.data (p1+i) < 256 ∧ st.data (p2+i) < 256) :
+    (runT (timingsafe_memcmp p1 p2 n none none) st).1 = memcmpSpec st n p1 p2 := by
+  rw [memcmp_unfold, runT_bind, checks_run st n hn]
+  simp only [runT_bind, runT_pure]
+  rw [memcmpLoop_val _ n p1 p2 (by simpa using hb)]
+  exact memcmpSpec_congr st (St.ev st _) rfl _ _ _
+
+/-! ## data independence -/
+
+/-- data independence: for given pointers, length and (public) object sizes, the sequence of
+addresses accessed and branch decisions taken is the same for ANY two memory contents -/
+theorem bcmp_ct (st₁ st₂ : St) (p1 p2 n : Nat) (db sb : Bos) :
+    trace (timingsafe_bcmp p1 p2 n db sb) st₁ = trace (timingsafe_bcmp p1 p2 n db sb) st₂ := by
+  obtain ⟨hv, ht⟩ := checks_indep st₁ st₂ n db sb
+  rw [bcmp_unfold, trace_bind, trace_bind, ht, hv]
+  congr 1
+  cases (runT (tsChecks n db sb) st₂).1 with
+  | some r => rfl
+  | none => simp only [trace_bind, bcmpLoop_trace, trace_pure]
+
+theorem memcmp_ct (st₁ st₂ : St) (p1 p2 n : Nat) (db sb : Bos) :
+    trace (timingsafe_memcmp p1 p2 n db sb) st₁ = trace (timingsafe_memcmp p1 p2 n db sb) st₂ := by
+  obtain ⟨hv, ht⟩ := checks_indep st₁ st₂ n db sb
+  rw [memcmp_unfold, trace_bind, trace_bind, ht, hv]
+  congr 1
+  cases (runT (tsChecks n db sb) st₂).1 with
+  | some r => rfl
+  | none => simp only [trace_bind, memcmpLoop_trace, trace_pure]
+
+theorem bcmp_trace (st : St) (p1 p2 n : Nat) (hn : n ≤ RSIZE_MAX_MEM) :
+    trace (timingsafe_bcmp p1 p2 n none none) st = .br false :: loopTrace n p1 p2 := by
+  rw [bcmp_unfold, trace_bind, checks_trace st n hn, checks_run st n hn]
+  simp only [trace_bind, bcmpLoop_trace, trace_pure, List.append_nil, List.cons_append,
+    List.nil_append]
+
+theorem memcmp_trace (st : St) (p1 p2 n : Nat) (hn : n ≤ RSIZE_MAX_MEM) :
+    trace (timingsafe_memcmp p1 p2 n none none) st = .br false :: loopTrace n p1 p2 := by
+  rw [memcmp_unfold, trace_bind, checks_trace st n hn, checks_run st n hn]
+  simp only [trace_bind, memcmpLoop_trace, trace_pure, List.append_nil, List.cons_append,
+    List.nil_append]
+
 end SafeC.Props.C19
